@@ -130,7 +130,22 @@ class Ctx:
             elif o.verdict == 'unknown':
                 self.add(key, 'M', 'undecided', o.time, f'solver gave no verdict within {cap}s', True, sample)
             else:
+                # native confirmation is expensive (process spawns, concretisation search): confirm a few representatives per obligation class,
+                # the remaining sat obligations of a class that already reproduced are reported as violated with a reference to the replayed one
+                cls = re.sub(r'\d+', '#', key)
+                if not hasattr(self, '_confirmed'): self._confirmed, self._tries = {}, {}
+                if cls in self._confirmed:
+                    ref = self._confirmed[cls]
+                    self.add(key, 'M', 'violated', o.time, f'solver model found; same obligation class as {ref[0]} which reproduced natively (replay not repeated)', True, sample, ref[1])
+                    continue
+                if self._tries.get(cls, 0) >= 3:
+                    self.add(key, 'M', 'fault', o.time, 'solver model found; three models of this obligation class did not reproduce natively (not retried)', True, sample)
+                    continue
+                self._tries[cls] = self._tries.get(cls, 0) + 1
+                n0 = len(self.obligations)
                 self._confirm_m(o, key, sample)
+                last = self.obligations[-1]
+                if last['verdict'] == 'violated': self._confirmed[cls] = (key, last.get('replay'))
 
     @staticmethod
     def _short(o):
